@@ -508,6 +508,53 @@ def r_pure(A, ctx, scope, rule="R-PURE"):
                                what=f"`{norm_src(c)[:50]}` modifies in place an array that is (or may "
                                     "alias, when validation does not copy) the caller's data",
                                loc=loc(f, c))
+    # entry points (fit / path / solve): no in-place method and no in-place array update on a
+    # parameter other than the start point, nor on a may-alias rebinding of it
+    START = {"w_init", "Xw_init", "W_init", "XW_init", "coef_init", "self"}
+    entry_funcs = []
+    for c in list(prog.solvers) + list(prog.estimators):
+        for nm in ("fit", "path", "solve", "_solve"):
+            m = c.methods.get(nm)
+            if m is not None:
+                entry_funcs.append(m)
+    for f in entry_funcs:
+        params = set(f.params) - START
+        cfg = cfg_of(f)
+        rd = cfg.reaching_defs()
+
+        def may_be_param(nd_id, name):
+            """some definition of `name` reaching nd_id is the parameter itself or a may-alias of it"""
+            if name not in params:
+                return False
+            for d in rd.get(nd_id, {}).get(name, ()):
+                a = cfg.nodes[d].ast if d >= 0 else None
+                if not isinstance(a, ast.Assign):
+                    return True                    # the parameter as passed
+                if _may_alias_input(a.value, name):
+                    return True
+            return False
+        for nd in cfg.stmts():
+            st = nd.ast
+            if nd.kind != "stmt" or st is None:
+                continue
+            hit = None
+            if isinstance(st, ast.AugAssign) and isinstance(st.target, ast.Name) and may_be_param(nd.id, st.target.id):
+                # array update only: the right-hand side mentions the array itself or a reduction of it
+                if st.target.id in names_in(st.value) or any(
+                        isinstance(x, ast.Call) and isinstance(x.func, ast.Attribute) for x in ast.walk(st.value)):
+                    hit = (st.target.id, f"`{norm_src(st)[:60]}` updates it in place")
+            for c in ast.walk(st):
+                if isinstance(c, ast.Call) and isinstance(c.func, ast.Attribute) and c.func.attr in INPLACE_METHODS:
+                    base = c.func.value
+                    while isinstance(base, (ast.Attribute, ast.Subscript)):
+                        base = base.value
+                    if isinstance(base, ast.Name) and may_be_param(nd.id, base.id):
+                        hit = (base.id, f"`{norm_src(c)[:60]}` modifies it (or a view of it) in place")
+            if hit:
+                n += 1
+                ctx.ob(rule, f"{f.fq}::inplace::{hit[0]}", False,
+                       what=f"{f.qualname}: `{hit[0]}` is (or may be, when validation / as-array conversion "
+                            f"returns its argument) the caller's array and {hit[1]}", loc=loc(f, st))
     # solver objects: a local that is (or may be, through an as-array helper) the array the
     # user passed to the constructor must not be updated in place - directly or in a callee
     for sc in prog.solvers:
@@ -815,3 +862,32 @@ def r_rowfilter(A, ctx, scope, rule="R-ROWFILTER"):
                     "datafit is then normalised by the number of kept samples, not by n_samples as documented "
                     "(alpha is silently rescaled)", loc=loc(f, hits[0]) if hits else None)
     ctx.floor(rule, n, scope.get("floor", 10))
+
+
+def r_classes(A, ctx, scope, rule="R-CLASSES"):
+    ctx.rule(rule, "`classes_` holds the caller's labels: every assignment to a fitted `classes_` attribute "
+             "takes it from the label encoder that was fitted on the raw targets, never from an object "
+             "fitted on the encoded targets (a one-vs-rest wrapper, np.unique of the encoded y): "
+             "predictions are `classes_[index]`")
+    em = A.prog.modules.get("skglm.estimators")
+    if em is None:
+        raise AnalysisError("skglm.estimators missing")
+    n = 0
+    funcs = list(em.functions.values()) + [m for c in em.classes.values() for m in c.methods.values()]
+    for f in funcs:
+        encoders = set()
+        for st in ast.walk(f.node):
+            if isinstance(st, ast.Assign) and isinstance(st.targets[0], ast.Name) and isinstance(st.value, ast.Call) \
+                    and ast.unparse(st.value.func).split(".")[-1] == "LabelEncoder":
+                encoders.add(st.targets[0].id)
+        for st in ast.walk(f.node):
+            if isinstance(st, ast.Assign) and any(isinstance(t, ast.Attribute) and t.attr == "classes_" for t in st.targets):
+                n += 1
+                v = st.value
+                ok = isinstance(v, ast.Attribute) and v.attr == "classes_" and isinstance(v.value, ast.Name) \
+                    and v.value.id in encoders
+                ctx.ob(rule, f"{f.fq}::{norm_src(st)[:60]}", ok,
+                       what=f"`{norm_src(st)[:70]}`: `classes_` is not taken from the label encoder fitted on the raw "
+                            "targets: with labels other than 0..K-1 the estimator predicts encoded codes instead "
+                            "of the caller's labels", loc=loc(f, st))
+    ctx.floor(rule, n, 1)
